@@ -1,6 +1,7 @@
 # -*- coding: utf-8 -*-
 """C09 — typed command classes build exactly the command they name."""
 import importlib
+import copy
 import json
 import random
 
@@ -69,6 +70,7 @@ def gen_case(g, row, cls, mode):
             return None
         drop = r.choice(cands)
     failed = None
+    scalars = []
     for p in row["params"]:
         default = row["defaults"][p]
         if p == drop:
@@ -129,13 +131,29 @@ def gen_case(g, row, cls, mode):
             v, t = g.value(crow)
             kwargs[p] = v
             order.append((p, ["P"] + t))
+            if not is_mand:
+                scalars.append((cname, v, t))     # (a second AVP of a mandatory kind would be the caller breaking the statement)
     if mode == "full" and r.random() < 0.4:
-        for i in range(r.choice([1, 2])):
+        extras = []
+        for i in range(r.choice([1, 2, 2, 3, 4])):
             tabled = {c for _, c in row["mandatory"]} | {c for _, c in row["optionals"]}
             free = [n for n in g.leaf_names if n not in tabled]
-            o, t = g.generic(unknown_only=True) if r.random() < 0.5 else g.leaf(r.choice(free))
+            u = r.random()
+            if extras and u < 0.3:
+                # a separate object EQUAL IN CONTENT to an earlier extra (a repeated Route-Record, Class, Proxy-Info ...)
+                o0, t = r.choice(extras)
+                o = copy.deepcopy(o0)
+            elif scalars and u < 0.45:
+                # ... or to the AVP built from a declared argument
+                cname, v, vt = r.choice(scalars)
+                o = bromgen.construct(lambda: g.classes[cname](v))
+                t = ["D", cname, "-"] + vt
+            else:
+                o, t = g.generic(unknown_only=True) if r.random() < 0.5 else g.leaf(r.choice(free))
             if isinstance(o, bromgen.Failed):
                 failed = o
+            else:
+                extras.append((o, t))
             k = "extra_%d" % i
             kwargs[k] = o
             order.append((k, ["A"] + t))
